@@ -50,6 +50,11 @@ def generate(rng, tier, idx):
         vd = [d for d in info['view_dirs'] if d and not any(c.startswith('.') for c in d.split('/'))]
         if vd:
             mount = rng.choice(vd)
+            topm_ = [m_ for m_ in g['manifests'] if m_['p'] == 'Manifest']
+            if topm_ and rng.random() < 0.4:
+                # ... and the top-level Manifest lists that very path as a FILE: the walk does not descend into it, the
+                # entry check is the only place that sees its device
+                topm_[0]['entries'].append({'tag': 'DATA', 'path': mount, 'size': 3, 'sums': {}})
     pool = None
     if rng.random() < 0.04:
         # a wide tree: more directories than one batch of the worker pool takes (64), discrepancies spread over them;
